@@ -10,7 +10,7 @@
 From Coq Require Import ZArith List Bool.
 From Model Require Import PyBase Graph PeriodicTable Valence Kekule Thiele.
 From Gen Require Import Elements.
-From Proofs Require Import KekuleProofs KekuleExt KekuleValence KekuleThiele KekuleSound.
+From Proofs Require Import KekuleProofs KekuleExt KekuleValence KekuleThiele KekuleSound KekuleLink.
 Import ListNotations.
 Open Scope Z_scope.
 
@@ -187,8 +187,8 @@ Print Assumptions C05_kekule_component_examples.
    atoms at most one).  The full statement  `kekule_component_sound : rings_wf rings db pyr = true -> every yielded form is
    form_sound`  was FALSE for the code before fix ad376fe of /repo (a pyrrole-type atom with three skeleton neighbours next to
    the start atom was visited twice; found here by kekule_component_sound_refuted, whose witness is now a regression input
-   of the check).  For the fixed code it is checked on every form the real generator and the model yield (molecules and
-   generated components) but NOT proved: see kekule_component_sound_partial for what is. *)
+   of the check).  For the fixed code it is PROVED for well-formed arguments (C05_kekule_component_sound below) and still
+   evaluated on every form the real generator and the model yield (molecules and generated components). *)
 Theorem C05_form_sound_examples :
   match kekule_component (ring_adj 6) [] 0 [] 7 10 1000 with
   | Ok (ys, _, _) => forallb (form_sound (ring_adj 6) [] []) ys && (2 <=? List.length ys)%nat | Err _ => false end = true /\
@@ -264,9 +264,8 @@ Print Assumptions C05_thiele_model_preserves.
    size, cut and fuel - is form_sound: every skeleton bond exactly once, orders 1 / 2, double_bonded atoms no double bond,
    plain ring atoms exactly one, pyrrole-type atoms at most one.  Proof: a lineage invariant over the explicit stack and its
    fork snapshots (Proofs.KekuleSound), including pyrrole-type atoms with three neighbours that are reached a second time
-   through a pending closure item (the situation of the former finding).  What remains outside: that the output of kekule()
-   is accepted by kekule_rel needs, in addition, the link between prepare_rings' classes and the relation's atom classes;
-   that link is not proved (the checker still runs on every output). *)
+   through a pending closure item (the situation of the former finding).  The step from sound forms to "the output of
+   kekule() is accepted by the relation" is C05_kekule_chain below. *)
 Theorem C05_kekule_component_sound : forall rings db db_start pyr bs maxy fuel ys r c,
   rings_wf2 rings db pyr = true -> (db <> [] -> In db_start db) ->
   kekule_component rings db db_start pyr bs maxy fuel = Ok (ys, r, c) ->
@@ -283,6 +282,42 @@ Theorem C05_kekule_component_sound_examples :
   | Ok (ys, _, _) => (1 <=? List.length ys)%nat && forallb (form_sound former_witness [6] [1; 3; 5; 7]) ys | Err _ => false end = true.
 Proof. exact kekule_component_sound_examples. Qed.
 Print Assumptions C05_kekule_component_sound_examples.
+
+(* ---- from sound forms to an accepted Kekule structure.  drawn g rings db pyr (decidable): every row of g has distinct
+   neighbours, its aromatic bonds are exactly the skeleton neighbours rings[n], and an atom with aromatic bonds has the class
+   (Model.Kekule.atom_class: from its own attributes and bonds) that membership in double_bonded / pyrroles says.  Then writing
+   any form_sound form into g gives a molecule kekule_rel_core accepts (same atoms, only aromatic bonds re-written to 1 / 2,
+   every ring atom the number of new double bonds of its class). *)
+Theorem C05_form_accepted : forall g rings db pyr form,
+  rings_sym rings = true -> drawn g rings db pyr = true -> form_sound rings db pyr form = true ->
+  kekule_rel_core g (apply_form g form) = true.
+Proof. exact form_accepted. Qed.
+Print Assumptions C05_form_accepted.
+
+(* ... and the whole chain for the search model: g drawn as (rings, double_bonded, pyrroles) say, the skeleton split into
+   components (split_ok), every component well formed with its two sets the restrictions of the whole sets (chain_hyp: ONE
+   boolean, evaluated by the check on every input molecule with the arguments the real code computed: it holds exactly for
+   the inputs whose aromatic bonds are the skeleton bonds).  Then for ANY choice of one yielded form per component - any
+   buffer size, cut, fuel, start atom in double_bonded - the forms written one after the other into g give a molecule that
+   kekule_rel_core accepts: acceptance of the kekule() / enumerate_kekule() bond assignment is a theorem about the model,
+   not a per-output check.  NOT covered by the theorem (still checked on every output): the hydrogen clauses kr_valence /
+   kr_h of kekule_rel (calc_implicit; recorded findings live there), inputs repaired by __prepare_rings (mis-drawn rings),
+   and that prepare_rings' own output satisfies chain_hyp (evaluated per input, not proved for all inputs). *)
+Theorem C05_kekule_chain : forall g rings db pyr (comps : list (adjl * list Z * list Z * list kentry)),
+  chain_hyp g rings db pyr (map fst comps) = true ->
+  (forall R dbi pyri f, In (R, dbi, pyri, f) comps ->
+     exists db_start bs maxy fuel ys r c, (dbi <> [] -> In db_start dbi) /\
+       kekule_component R dbi db_start pyri bs maxy fuel = Ok (ys, r, c) /\ In f ys) ->
+  kekule_rel_core g (apply_form g (concat (map snd comps))) = true.
+Proof. exact kekule_chain. Qed.
+Print Assumptions C05_kekule_chain.
+
+Theorem C05_kekule_chain_examples :
+  chain_of benzene_a [[1; 2; 3; 4; 5; 6]] = true /\ chain_of pyrrole_a [[1; 2; 3; 4; 5]] = true /\
+  chain_of pyridine_a [[1; 2; 3; 4; 5; 6]] = true /\
+  chain_of (ring [cH; cH; cH; cH; cH; cH] [4; 4; 4; 1; 4; 4]) [[1; 2; 3; 4; 5; 6]] = false.
+Proof. exact kekule_chain_examples. Qed.
+Print Assumptions C05_kekule_chain_examples.
 
 (* ---- thiele() with the default fix_tautomers=True, algorithm-level model thiele_model_t (ring loop with acceptors / donors, the
    depth-first hydrogen-moving search, quinone stage, pruning, writing; tied by correspondence, the iteration orders of the
